@@ -24,6 +24,17 @@ AE.require_calling_aet / AE.require_called_aet / EVT_USER_ID; never imports pyne
 Three-valued: truthy-but-not-True verdicts (documented type is bool) are not asserted either way; for
 non-conformant titles only "never established against the policy" + "no handler" is asserted.
 Every violating request is executed a second time; only mechanisms that reproduce are reported.
+
+Violation keys (mechanism, never input):
+  established-against-policy|<check>[|<how the title relates: case-differs, inner-space-differs, substring, unrelated>]
+      <check> = calling-aet | called-aet | identity-verdict-false | identity-verdict-falsy |
+                identity-handler-raises|<ExceptionClass> | identity-malformed-return   (one violation per failing check)
+  established-against-policy|nonconformant-title|<relation>|<check>   the title that wrongly matched is not a legal AE title
+      (directed family: a configured title plus ONE control character that str.strip() removes: \\t \\n \\r \\x0b \\x0c \\x1c-\\x1f)
+  rejected-against-policy|<what the answer claims: calling-aet, called-aet, identity, other-codes, abort, closed, no-response>
+  wrong-rj-codes|<check or 'multiple'>      no-rj|<check or 'multiple'>|<abort, closed, no-response>
+  handler-invoked-on-rejected-association|<EVT>      dimse-response-on-rejected-association
+  events-inconsistent|...      escaped-exception|...      threads-not-ended|<answer>      identity-handler-invocations
 """
 import threading
 import time
